@@ -318,43 +318,70 @@ void dom_p04(void) {
             ml = (size_t) sprintf(msg, "%s %s\n", cmdname[h_below(4)], b[h_below(12)]);
         }
         k = (size_t) sprintf(line, "P 256 16 %s ", table); k += chunk_hex(line + k, msg, ml);
+        if (h_chance(12)) {
+            /* history: the literal arrives UNTERMINATED behind a longer, terminated numeric message in the same call and is
+             * executed by a zero-length call: it must decode to its own value, not to one glued to what the earlier
+             * message left in the buffer */
+            static char both[2200], m1[1100]; size_t l1, l2 = ml;
+            if (l2 && msg[l2 - 1] == '\n') l2--;
+            gen_literal(lit); l1 = (size_t) sprintf(m1, "%s %s%u%u\n", cmdname[h_below(7)], lit, h_below(100000), h_below(100000));
+            memcpy(both, m1, l1); memcpy(both + l1, msg, l2);
+            k = (size_t) sprintf(line, "P 256 16 %s ", table); k += chunk_hex(line + k, both, l1 + l2); k += (size_t) sprintf(line + k, " -");
+        }
         emit_case(line);
     }
 }
 
 /* P17 (C17): one query whose script emits blocks and binary arrays: every element size, both byte orders, lengths 0..300,
  * streamed header / data calls in every kind of split, over-length chunks, unfinished blocks */
-void dom_p17(void) {
-    unsigned long n = h_thorough ? 300000 : 30000; static char line[20000], script[16000];
-    for (; n; n--) {
-        size_t k = 0; unsigned ops = 1 + h_below(3), o;
-        for (o = 0; o < ops; o++) {
-            unsigned kind = h_below(10), len = h_chance(70) ? h_below(12) : h_below(301), i;
-            if (o) script[k++] = '/';
-            if (kind < 3) {                                       /* whole block */
-                k += (size_t) sprintf(script + k, "rK,"); if (!len) script[k++] = '-';
-                for (i = 0; i < len; i++) k += (size_t) sprintf(script + k, "%02x", h_below(256));
-            } else if (kind < 6) {                                /* array: size, format, elements */
-                unsigned sz = 1u << h_below(4), cnt = h_chance(15) ? 0 : 1 + h_below(h_chance(80) ? 6 : 37);
-                k += (size_t) sprintf(script + k, "rA,%u,%u,", sz, h_below(2)); if (!cnt) script[k++] = '-';
-                for (i = 0; i < cnt * sz; i++) k += (size_t) sprintf(script + k, "%02x", h_below(256));
-            } else if (kind < 9) {                                /* streamed: header then data chunks */
-                unsigned sent = 0, target = len, mode = h_below(5);   /* 0 exact, 1 short, 2 over-length chunk then rest, 3 zero-length chunks, 4 exact */
-                k += (size_t) sprintf(script + k, "rKH,%u", len);
-                if (mode == 1 && target) target = h_below(target);
-                while (sent < target) {
-                    unsigned c = 1 + h_below(target - sent), j;
-                    if (mode == 2 && h_chance(40)) { k += (size_t) sprintf(script + k, "/rKD,"); for (j = 0; j < (len - sent) + 1 + h_below(3); j++) k += (size_t) sprintf(script + k, "%02x", h_below(256)); mode = 0; }
-                    if (mode == 3 && h_chance(30)) k += (size_t) sprintf(script + k, "/rKD,-");
-                    k += (size_t) sprintf(script + k, "/rKD,"); for (j = 0; j < c; j++) k += (size_t) sprintf(script + k, "%02x", h_below(256));
-                    sent += c;
-                }
-                if (len == 0 && h_chance(70)) k += (size_t) sprintf(script + k, "/rKD,-");
-            } else k += (size_t) sprintf(script + k, "rI,32,1,%x,10", h_below(1000));
-            if (k > sizeof script - 2000) break;
+/* one handler script of the P17 domain */
+static size_t p17_script(char *script, size_t cap, int allow_headerless) {
+    size_t k = 0; unsigned ops = 1 + h_below(3), o;
+    for (o = 0; o < ops; o++) {
+        unsigned kind = h_below(allow_headerless ? 11 : 10), len = h_chance(70) ? h_below(12) : h_below(301), i;
+        if (o) script[k++] = '/';
+        if (kind < 3) {                                       /* whole block */
+            k += (size_t) sprintf(script + k, "rK,"); if (!len) script[k++] = '-';
+            for (i = 0; i < len; i++) k += (size_t) sprintf(script + k, "%02x", h_below(256));
+        } else if (kind < 6) {                                /* array: size, format, elements */
+            unsigned sz = 1u << h_below(4), cnt = h_chance(15) ? 0 : 1 + h_below(h_chance(80) ? 6 : 37);
+            k += (size_t) sprintf(script + k, "rA,%u,%u,", sz, h_below(2)); if (!cnt) script[k++] = '-';
+            for (i = 0; i < cnt * sz; i++) k += (size_t) sprintf(script + k, "%02x", h_below(256));
+        } else if (kind < 9) {                                /* streamed: header then data chunks */
+            unsigned sent = 0, target = len, mode = h_below(5);   /* 0 exact, 1 short, 2 over-length chunk then rest, 3 zero-length chunks, 4 exact */
+            k += (size_t) sprintf(script + k, "rKH,%u", len);
+            if (mode == 1 && target) target = h_below(target);
+            while (sent < target) {
+                unsigned c = 1 + h_below(target - sent), j;
+                if (mode == 2 && h_chance(40)) { k += (size_t) sprintf(script + k, "/rKD,"); for (j = 0; j < (len - sent) + 1 + h_below(3); j++) k += (size_t) sprintf(script + k, "%02x", h_below(256)); mode = 0; }
+                if (mode == 3 && h_chance(30)) k += (size_t) sprintf(script + k, "/rKD,-");
+                k += (size_t) sprintf(script + k, "/rKD,"); for (j = 0; j < c; j++) k += (size_t) sprintf(script + k, "%02x", h_below(256));
+                sent += c;
+            }
+            if (len == 0 && h_chance(70)) k += (size_t) sprintf(script + k, "/rKD,-");
+        } else if (kind == 9) k += (size_t) sprintf(script + k, "rI,32,1,%x,10", h_below(1000));
+        else {                                                /* data without a header of its own: must be refused whatever an earlier unit left open */
+            unsigned c = 1 + h_below(8), j;
+            k += (size_t) sprintf(script + k, "rKD,"); for (j = 0; j < c; j++) k += (size_t) sprintf(script + k, "%02x", h_below(256));
         }
-        script[k] = 0;
-        sprintf(line, "P 64 4 423f:1:%s 423f0a", script);
+        if (k > cap - 2000) break;
+    }
+    script[k] = 0;
+    return k;
+}
+
+void dom_p17(void) {
+    unsigned long n = h_thorough ? 300000 : 30000; static char line[64000], s1[16000], s2[16000], s3[16000];
+    for (; n; n--) {
+        unsigned shape = h_below(10);
+        p17_script(s1, sizeof s1, 0);
+        if (shape < 6) { sprintf(line, "P 64 4 423f:1:%s 423f0a", s1); emit_case(line); continue; }
+        /* two or three units with scripts of their own, in one message or in consecutive messages: the block accounting of
+         * one unit (an unfinished block, say) must not carry into the next */
+        p17_script(s2, sizeof s2, 1); p17_script(s3, sizeof s3, 1);
+        if (shape < 8) sprintf(line, "P 64 4 423f:1:%s;433f:2:%s 423f3b433f0a", s1, s2);                          /* B?;C? */
+        else if (shape == 8) sprintf(line, "P 64 4 423f:1:%s;433f:2:%s;443f:3:%s 423f3b3a433f3b443f0a", s1, s2, s3);   /* B?;:C?;D? */
+        else sprintf(line, "P 64 4 423f:1:%s;433f:2:%s 423f0a433f0a", s1, s2);                                      /* B? <nl> C? */
         emit_case(line);
     }
     /* announced lengths around 2^16 and beyond followed by a first data chunk: the chunk must be accepted, the block stays open */
